@@ -8,9 +8,10 @@ git diff -- nucs > mutation/patch.diff
 rm -rf "$wt/.nbcache_confirm"
 tests=$(NUMBA_CACHE_DIR=$wt/.nbcache_confirm /venv/bin/python -m pytest -q -p no:cacheprovider --timeout=900 2>&1 | tail -1)
 PYTHONPATH=$wt NUMBA_DISABLE_JIT=1 /venv/bin/python mutation/demo.py > /tmp/demo_with.$$ 2>&1; with=$?
-git stash -q
+# (no git stash: the stash is shared by all worktrees of one repository)
+git apply -R mutation/patch.diff || { echo "CANNOT REVERT PATCH"; exit 2; }
 PYTHONPATH=$wt NUMBA_DISABLE_JIT=1 /venv/bin/python mutation/demo.py > /tmp/demo_without.$$ 2>&1; without=$?
-git stash pop -q
+git apply mutation/patch.diff
 rm -rf "$wt/.nbcache_confirm"
 echo "tests: $tests"
 echo "demo with change: exit $with ; without: exit $without"
